@@ -314,7 +314,7 @@ impl Runner {
         if let Some(cfg) = or.probe_after_commit {
             let db = self.db_static();
             let mut ms: Vec<Mismatch> = vec![];
-            let mut st = ProbeStats { reads: 0 };
+            let mut st = ProbeStats::default();
             let extra = self.extra_probes.clone();
             let model = self.model.clone();
             let r = guarded(|| {
@@ -447,7 +447,7 @@ impl Runner {
                     }
                     if let Some(cfg) = or.probe_each_op {
                         let mut ms = vec![];
-                        let mut st = ProbeStats { reads: 0 };
+                        let mut st = ProbeStats::default();
                         let r = guarded(|| real::probe_tx(&tx, &model, &self.extra_probes, cfg, &mut st, &mut ms));
                         self.stats.reads += st.reads;
                         if let Err(p) = r {
